@@ -66,8 +66,11 @@ func (k Keeper) getBalances(ctx sdk.Context) []types.Owner {
 	it := storetypes.KVStorePrefixIterator(store, types.PrefixBalance)
 	defer it.Close()
 
-	ownerMap := make(map[string]map[string]map[string]uint64)
-
+	// The iterator walks the balance keys (address/denomID/mtID) in ascending order, so
+	// the balances of one owner, and within it of one denom, are adjacent. Building the
+	// result in that order keeps the exported genesis deterministic (grouping through
+	// Go maps and ranging over them is not).
+	var owners []types.Owner
 	for ; it.Valid(); it.Next() {
 		keys := bytes.Split(it.Key(), types.Delimiter)
 
@@ -76,32 +79,17 @@ func (k Keeper) getBalances(ctx sdk.Context) []types.Owner {
 		mtID := string(keys[3])
 		amount := types.MustUnMarshalAmount(k.cdc, it.Value())
 
-		if _, ok := ownerMap[address]; !ok {
-			ownerMap[address] = make(map[string]map[string]uint64)
+		if n := len(owners); n == 0 || owners[n-1].Address != address {
+			owners = append(owners, types.NewOwner(address, nil))
 		}
+		owner := &owners[len(owners)-1]
 
-		if _, ok := ownerMap[address][denomID]; !ok {
-			ownerMap[address][denomID] = make(map[string]uint64)
+		if n := len(owner.Denoms); n == 0 || owner.Denoms[n-1].DenomId != denomID {
+			owner.Denoms = append(owner.Denoms, types.NewDenomBalance(denomID, nil))
 		}
+		denom := &owner.Denoms[len(owner.Denoms)-1]
 
-		ownerMap[address][denomID][mtID] = amount
-	}
-
-	var owners []types.Owner
-	for addr, denomMap := range ownerMap {
-		var denomBalances []types.DenomBalance
-		for denomID, mtMap := range denomMap {
-			var balances []types.Balance
-			for mtID, amount := range mtMap {
-				balance := types.NewBalance(mtID, amount)
-				balances = append(balances, balance)
-			}
-			denomBalance := types.NewDenomBalance(denomID, balances)
-			denomBalances = append(denomBalances, denomBalance)
-		}
-
-		owner := types.NewOwner(addr, denomBalances)
-		owners = append(owners, owner)
+		denom.Balances = append(denom.Balances, types.NewBalance(mtID, amount))
 	}
 
 	return owners
